@@ -30,7 +30,8 @@ def builtin_len(x):
 
 def builtin_isnan(x):
     import numpy as np
-    return np.isnan(x)
+    # True if and only if there are any NaNs in x
+    return np.any(np.isnan(x))
 
 
 def builtin_norm_1(x):
